@@ -32,11 +32,26 @@ def _vf_exc(name, e):
   if not _VF_SYMBOLIC:
     import traceback as _tb; _tb.print_exc()
   return name.startswith('wit_')
+class _VfNoLog:
+  """logging / clock stand-in for symbolic runs: formatting and time are not the subject."""
+  INFO = WARNING = ERROR = DEBUG = FATAL = 0
+  def __getattr__(self, name):
+    return lambda *a, **k: None
+class _VfClock:
+  @staticmethod
+  def time(): return 0.0
+  @staticmethod
+  def sleep(s): return None
+def _vf_silence(*modules):
+  if _VF_SYMBOLIC:
+    for m in modules:
+      if hasattr(m, 'logging'): m.logging = _VfNoLog()
+      if hasattr(m, 'time') and hasattr(m.time, 'time'): m.time = _VfClock
 if _VF_SYMBOLIC:
   _atexit.register(lambda: _sys.stderr.write('VF-PATHS %r\\n' % (_VF_PATHS,)))
 '''
 
-_CALL_RE = re.compile(r'when calling (.*?)(?: \(which returns (.*)\))?$')
+_CALL_RE = re.compile(r'when calling (.*?)(?: with crosshair\.patch_to_return\(.*?\))?(?: \(which returns (.*)\))?$')
 
 
 def fn(name: str, params: str, pre, body: str) -> str:
@@ -88,13 +103,18 @@ def _run_one(path, name, line, timeout, extra_path):
 
 
 def replay_call(path, call, extra_path=(), timeout=300):
-  """Concrete replay in plain python against the real code. Returns (reproduced, text)."""
+  """Concrete replay in plain python against the real code (real numpy, no tracing).
+  Returns (reproduced, text); reproduced is None when the call expression itself cannot be evaluated."""
   code = (
       'import sys, importlib.util, traceback\n'
       f'spec = importlib.util.spec_from_file_location("vf_harness", {path!r})\n'
       'm = importlib.util.module_from_spec(spec); sys.modules["vf_harness"] = m; spec.loader.exec_module(m)\n'
       'try:\n'
-      f'  r = eval({call!r}, vars(m))\n'
+      f'  c = compile({call!r}, "<call>", "eval")\n'
+      'except SyntaxError as e:\n'
+      '  print("VF-REPLAY unparsable", e); sys.exit(0)\n'
+      'try:\n'
+      '  r = eval(c, vars(m))\n'
       'except Exception as e:\n'
       '  print("VF-REPLAY raised", type(e).__name__, e); traceback.print_exc(); sys.exit(0)\n'
       'print("VF-REPLAY returned", repr(r), "truthy" if r else "falsy")\n')
@@ -103,8 +123,8 @@ def replay_call(path, call, extra_path=(), timeout=300):
   env['PYTHONPATH'] = os.pathsep.join([common.REPO, os.path.dirname(path), common.VERIF] + list(extra_path))
   p = subprocess.run([common.VENV_PY, '-c', code], env=env, capture_output=True, text=True, timeout=timeout)
   text = (p.stdout + p.stderr)[-3000:]
-  m = re.search(r'VF-REPLAY (raised|returned) (.*)', p.stdout)
-  if not m:
+  m = re.search(r'VF-REPLAY (raised|returned|unparsable) (.*)', p.stdout)
+  if not m or m.group(1) == 'unparsable':
     return None, text
   if m.group(1) == 'raised':
     return True, text
